@@ -73,6 +73,8 @@ type SimStore struct {
 	fired   []Site
 	opCount int
 
+	// Leaks: creation sites of iterators that were still open when their transaction was discarded.
+	Leaks []string
 	// Yield is called before each operation when set (E4b parks tasks here).
 	Yield func(Site)
 	// OnWrite monitors every write that reaches the store or a transaction.
@@ -318,6 +320,18 @@ type simTxn struct {
 	writes []kvWrite
 	dead   error
 	done   bool
+	iters  []*simIter
+}
+
+// leakedIterSites: creation sites of iterators still open when their transaction ended.
+func (t *simTxn) noteLeaks() {
+	for _, it := range t.iters {
+		if !it.closed {
+			t.s.mu.Lock()
+			t.s.Leaks = append(t.s.Leaks, it.site)
+			t.s.mu.Unlock()
+		}
+	}
 }
 
 func (t *simTxn) Get(ctx context.Context, key []byte) ([]byte, error) {
@@ -382,7 +396,9 @@ func (t *simTxn) Iterator(ctx context.Context, opts corekv.IterOptions) (corekv.
 	if err != nil {
 		return nil, err
 	}
-	return &simIter{s: t.s, it: it, name: iterKey(opts)}, nil
+	si := &simIter{s: t.s, it: it, name: iterKey(opts), site: defraFrames()}
+	t.iters = append(t.iters, si)
+	return si, nil
 }
 
 func (t *simTxn) Commit() error {
@@ -416,13 +432,16 @@ func (t *simTxn) Commit() error {
 
 func (t *simTxn) Discard() {
 	t.done = true
+	t.noteLeaks()
 	t.t.Discard()
 }
 
 type simIter struct {
-	s    *SimStore
-	it   corekv.Iterator
-	name []byte
+	s      *SimStore
+	it     corekv.Iterator
+	name   []byte
+	closed bool
+	site   string
 }
 
 func (i *simIter) Next() (bool, error) {
@@ -447,6 +466,7 @@ func (i *simIter) Seek(k []byte) (bool, error) {
 func (i *simIter) Reset() { i.it.Reset() }
 func (i *simIter) Close() error {
 	// closing is never failed: a failing Close would leak the base iterator
+	i.closed = true
 	return i.it.Close()
 }
 
